@@ -219,7 +219,7 @@ class Interp(object):
     # ------------------------------------------------------------------
     # function calls
     # ------------------------------------------------------------------
-    def call_function(self, st, func, args, kwargs, node=None, self_val=None, _body=None):
+    def call_function(self, st, func, args, kwargs, node=None, self_val=None, _body=None, _yield_to=None):
         """Inline an in-repo function.  -> outcomes ('val'|'raise')."""
         stub = self.find_stub(func) if _body is None else None
         if stub is not None:
@@ -231,10 +231,10 @@ class Interp(object):
         fnode = func.node
         is_gen = getattr(fnode, "_is_gen", None)
         if is_gen is None:
-            is_gen = fnode._is_gen = any(isinstance(n, (ast.Yield, ast.YieldFrom)) for n in ast.walk(fnode))
+            is_gen = fnode._is_gen = _has_own_yield(fnode.body)
         if _body is not None:
             is_gen = False
-        if is_gen and not getattr(self, "eager_generators", False) and not getattr(self, "_forcing_generator", 0):
+        if is_gen and _yield_to is None and not getattr(self, "eager_generators", False) and not getattr(self, "_forcing_generator", 0):
             # a generator object: nothing runs until somebody consumes it (sa.lazyiter.force)
             return [(st, "val", st.alloc(HObj("iterator", {"@gen": (func, tuple(args), tuple(sorted(kwargs.items())), self_val)}, kind="iterator")))]
         frame = {}
@@ -275,14 +275,25 @@ class Interp(object):
         saved = (self.cur_func,)
         self.cur_func = func
         self.depth += 1
+        if _yield_to is not None:
+            self._yield_handlers.append(_yield_to)
         try:
             outs = self.exec_block(st, fnode.body if _body is None else _body)
         finally:
             self.depth -= 1
             self.cur_func = saved[0]
+            if _yield_to is not None:
+                self._yield_handlers.pop()
         res = []
         for (s, kind, val) in outs:
             fr = s.frames.pop()
+            if _yield_to is not None:
+                # a generator driven by its consumer: it ended, or the consumer left the loop
+                if kind in ("next", "return"):
+                    res.append((s, "val", None))
+                else:
+                    res.append((s, kind, val))
+                continue
             if is_gen and kind in ("next", "return"):
                 # eager generator: the values it yields, as a tuple
                 kind, val = "return", tuple(fr.get("@yield", ()))
@@ -911,17 +922,9 @@ class Interp(object):
                     if k2 != "val":
                         res.append((s2, k2, it2))
                         continue
-                    if isinstance(it2, Ref) and s2.obj(it2).kind == "iterator" and "@gen" in s2.obj(it2).fields:
-                        if any(isinstance(x, (ast.Break, ast.Return)) for b_ in node.body for x in ast.walk(b_)):
-                            if not _lazyiter.pure_generator(s2.obj(it2).fields["@gen"][0]):
-                                raise Unsupported("loop with an early exit over a generator that has effects at %s" % self.loc(node))
-                        for (s3, k3, v3) in _lazyiter.force(self, s2, it2, node):
-                            if k3 != "val":
-                                res.append((s3, k3, v3))
-                            else:
-                                s3.frames[-1][itkey] = it2
-                                held = True
-                                res.extend(self.loop_iterator(s3, node, it2))
+                    if isinstance(it2, Ref) and s2.obj(it2).kind == "iterator" and _lazyiter.is_generator_object(s2, it2):
+                        # the loop drives the generator: its body runs, and at every yield the loop body runs (exact interleaving)
+                        res.extend(self.loop_generator(s2, node, it2))
                         continue
                     if isinstance(it2, Ref) and s2.obj(it2).kind == "iterator":
                         io = s2.obj(it2)
@@ -999,7 +1002,7 @@ class Interp(object):
             if "@nt" in o.fields:
                 return ("concrete", [o.fields[n_] for n_ in o.fields["@nt"]])
             if o.kind == "iterator":
-                if "@gen" in o.fields:
+                if "@gen" in o.fields or "@genc" in o.fields:
                     outs = _lazyiter.force(self, st, it, node)
                     if len(outs) != 1 or outs[0][0] is not st or outs[0][1] != "val":
                         raise Unsupported("generator consumed where its body forks or raises at %s" % self.loc(node))
@@ -1076,6 +1079,80 @@ class Interp(object):
             else:
                 res.append((s, "next", None))
         res.extend((s, "next", None) for s in broke)
+        return res
+
+    _yield_handlers = ()
+
+    def loop_generator(self, st, node, ref):
+        """for TARGET in <generator object>: BODY.  The generator's own body is executed; wherever it yields, TARGET is
+        bound in the consumer's frame and BODY runs there; `continue` / normal end resumes the generator, `break` / `return` /
+        an exception of BODY abandon it (its finally blocks run, as on close())."""
+        if not isinstance(self._yield_handlers, list):
+            self._yield_handlers = []
+        o = st.obj(ref)
+        base = len(st.frames)
+        consumer = self.cur_func
+        loop_id = id(node)
+
+        def at_yield(s, value):
+            extra = s.frames[base:]
+            s.frames = s.frames[:base]
+            saved_cur = self.cur_func
+            self.cur_func = consumer
+            self._yield_handlers.append(None)         # a yield inside BODY belongs to the consumer, not to this generator
+            outs = []
+            try:
+                self.emit(s, ("iter", loop_id, "generator", value))
+                for (s1, k1, v1) in self.assign(s, node.target, value):
+                    if k1 != "next":
+                        outs.append((s1, "@genraise" if k1 == "raise" else k1, v1))
+                        continue
+                    for (s2, k2, v2) in self.exec_block(s1, node.body):
+                        if k2 in ("next", "continue"):
+                            outs.append((s2, "val", None))
+                        elif k2 == "break":
+                            outs.append((s2, "@genbreak", None))
+                        elif k2 == "return":
+                            outs.append((s2, "@genreturn", v2))
+                        elif k2 == "raise":
+                            outs.append((s2, "@genraise", v2))
+                        else:
+                            outs.append((s2, k2, v2))
+            finally:
+                self._yield_handlers.pop()
+                self.cur_func = saved_cur
+            for (s2, _k, _v) in outs:
+                s2.frames = s2.frames[:base] + [dict(f) for f in extra]
+            return outs
+        f = o.fields
+        w = st.wobj(ref)
+        if "@genc" in f:
+            cref, args, kwargs = f["@genc"]
+            w.fields = {k_: v_ for k_, v_ in w.fields.items() if k_ != "@genc"}
+            w.items, w.fields["@pos"] = [], 0          # consumed: nothing is left for a later consumer
+            outs = self.call_closure(st, cref, list(args), dict(kwargs), node, _yield_to=at_yield)
+        else:
+            func, args, kwargs, self_val = f["@gen"]
+            w.fields = {k_: v_ for k_, v_ in w.fields.items() if k_ != "@gen"}
+            w.items, w.fields["@pos"] = [], 0
+            outs = self.call_function(st, func, list(args), dict(kwargs), node, self_val=self_val, _yield_to=at_yield)
+        res = []
+        for (s, k, v) in outs:
+            if k == "val":
+                self.emit(s, ("loopexit", loop_id, "generator"))
+                if node.orelse:
+                    res.extend(self.exec_block(s, node.orelse))
+                else:
+                    res.append((s, "next", None))
+            elif k == "@genbreak":
+                self.emit(s, ("loopexit", loop_id, "generator"))
+                res.append((s, "next", None))
+            elif k == "@genreturn":
+                res.append((s, "return", v))
+            elif k == "@genraise":
+                res.append((s, "raise", v))
+            else:
+                res.append((s, k, v))
         return res
 
     def loop_iterator(self, st, node, ref, limit=10000):
@@ -1322,12 +1399,18 @@ class Interp(object):
                                           "@defaults": tuple(defaults)},
                              kind="closure", label="closure " + name))
 
-    def call_closure(self, st, ref, args, kwargs, node):
+    def call_closure(self, st, ref, args, kwargs, node, _yield_to=None):
         o = st.obj(ref)
         info = getattr(self, "closure_nodes", {}).get(o.fields.get("@node"))
         if info is None:
             return [(st, "val", Top("closure-call", False))]
         cnode, owner = info
+        is_gen = getattr(cnode, "_is_gen", None)
+        if is_gen is None:
+            is_gen = cnode._is_gen = (not isinstance(cnode, ast.Lambda)) and _has_own_yield(cnode.body)
+        if is_gen and _yield_to is None and not getattr(self, "eager_generators", False) and not getattr(self, "_forcing_generator", 0):
+            # a local generator function: a generator object, run when it is consumed (sa.lazyiter.force)
+            return [(st, "val", st.alloc(HObj("iterator", {"@genc": (ref, tuple(args), tuple(sorted(kwargs.items())))}, kind="iterator")))]
         a = cnode.args
         params = [p.arg for p in a.posonlyargs + a.args]
         frame = dict(o.fields.get("@env", ()))
@@ -1352,6 +1435,8 @@ class Interp(object):
         saved = self.cur_func
         self.cur_func = owner
         self.depth += 1
+        if _yield_to is not None:
+            self._yield_handlers.append(_yield_to)
         try:
             if isinstance(cnode, ast.Lambda):
                 outs = [(s, "return" if k == "val" else k, v) for (s, k, v) in self.eval(st, cnode.body)]
@@ -1360,9 +1445,16 @@ class Interp(object):
         finally:
             self.depth -= 1
             self.cur_func = saved
+            if _yield_to is not None:
+                self._yield_handlers.pop()
         res = []
         for (s, k, v) in outs:
-            s.frames.pop()
+            fr = s.frames.pop()
+            if _yield_to is not None:
+                res.append((s, "val", None) if k in ("next", "return") else (s, k, v))
+                continue
+            if is_gen and k in ("next", "return"):
+                k, v = "return", tuple(fr.get("@yield", ()))
             if k == "next":
                 res.append((s, "val", None))
             elif k == "return":
@@ -1475,6 +1567,19 @@ def _as_load(target):
     ast.copy_location(t, target)
     target._as_load = t
     return t
+
+
+def _has_own_yield(body):
+    """a yield in these statements themselves - not inside a nested def / lambda / class"""
+    stack = list(body)
+    while stack:
+        n = stack.pop()
+        if isinstance(n, (ast.Yield, ast.YieldFrom)):
+            return True
+        if isinstance(n, (ast.FunctionDef, ast.AsyncFunctionDef, ast.Lambda, ast.ClassDef)):
+            continue
+        stack.extend(ast.iter_child_nodes(n))
+    return False
 
 
 from . import absexpr as _absexpr      # noqa: E402
